@@ -108,7 +108,9 @@ impl<'r> TryFrom<&'r [u8]> for Request<'r> {
                 let address = BigEndian::read_u16(&bytes[1..3]);
                 let quantity = BigEndian::read_u16(&bytes[3..5]) as usize;
                 let byte_count = bytes[5];
-                if bytes.len() < (6 + byte_count as usize) {
+                if bytes.len() < (6 + byte_count as usize)
+                    || packed_coils_len(quantity) > u8::MAX as usize
+                {
                     return Err(Error::ByteCount(byte_count));
                 }
                 let data = &bytes[6..];
